@@ -88,6 +88,21 @@ func largeNameJobs(c *Ctx, prop string, archs []string, boundary []int) ([]run.J
 			p["props"] = prop
 			jobs = append(jobs, run.Job{ID: fmt.Sprintf("large/%s/table-in-%d-groups(%d names)", a, k, len(ns)), Pkg: run.Module, Harness: "H_Policy", Params: p, Weight: len(ns)})
 		}
+		// unbalanced splits: short early groups in front of a long one (their jumps are bridged while the
+		// long group's are in reach of the tail), and a long group in the middle
+		if a == archs[0] && len(ns) > 340 {
+			for ui, sizes := range [][]int{{10, 10, 310}, {3, 300, 3, 30}} {
+				var gs []LargeGroup
+				at := 0
+				for _, sz := range sizes {
+					gs = append(gs, LargeGroup{Names: ns[at : at+sz]})
+					at += sz
+				}
+				p := LargeParams(a, 0, gs)
+				p["props"] = prop
+				jobs = append(jobs, run.Job{ID: fmt.Sprintf("large/%s/unbalanced%d%v", a, ui, sizes), Pkg: run.Module, Harness: "H_Policy", Params: p, Weight: 330})
+			}
+		}
 		for _, n := range boundary {
 			if n > len(ns) {
 				continue
